@@ -119,6 +119,69 @@ pub fn check_total(shape: &Shape, input: &[u8], adversarial: bool, l: &mut Local
     Ok(())
 }
 
+/// A deserializer over reader storage that is used again after a request failed (scratch too small, input exhausted):
+/// whatever it answers, nothing is written outside the scratch buffer (guard pages on both sides), borrowed data and the
+/// scratch handed back by `finalize` lie inside it.
+pub fn check_reader_reuse(shape: &Shape, stream: &[u8], scratch_len: usize, flush_start: bool, l: &mut Local) -> CaseResult {
+    use serde::Deserialize;
+    let cj = || {
+        let mut j = case_bytes_json(shape, stream);
+        j["reader_reuse"] = json!(true);
+        j["scratch"] = json!(scratch_len);
+        j["flush_start"] = json!(flush_start);
+        j
+    };
+    if ref_decode(shape, stream).err() == Some(DecErr::ZeroWidthSkip) {
+        l.skipped += 1;
+        return Ok(());
+    }
+    set_pending(&cj().to_string());
+    l.eval();
+    let r = SCRATCH.with(|a| -> CaseResult {
+        let mut a = a.borrow_mut();
+        let scratch: &mut [u8] = a.slice(scratch_len, if flush_start { Flush::Start } else { Flush::End });
+        let (lo, hi) = (scratch.as_ptr() as usize, scratch.as_ptr() as usize + scratch_len);
+        let (r, log) = with_shape(shape, || {
+            no_panic(|| {
+                let rd: &[u8] = stream;
+                let mut de = postcard::Deserializer::from_flavor(postcard::de_flavors::io::io::IOReader::new(rd, scratch));
+                let mut oks = 0;
+                for _ in 0..3 {
+                    if Dyn::deserialize(&mut de).is_ok() {
+                        oks += 1;
+                    }
+                }
+                let fin = de.finalize().map(|(_, rest)| (rest.as_ptr() as usize, rest.len()));
+                (oks, fin)
+            })
+        });
+        let (_oks, fin) = r.map_err(|p| fail("total", format!("decoding through a reused reader deserializer panicked: {}", p), cj()))?;
+        if log.skipped_zero_width {
+            return Ok(());
+        }
+        for (p, n) in &log.borrows {
+            if *n > 0 && (*p < lo || p + n > hi) {
+                return Err(fail("total", format!("borrowed data at {:#x}+{} lies outside the scratch buffer {:#x}..{:#x}", p, n, lo, hi), cj()));
+            }
+        }
+        if let Ok((p, n)) = fin {
+            if p < lo || p + n > hi {
+                return Err(fail(
+                    "total",
+                    format!("finalize() handed back a scratch slice at offset {} (len {}) of a {}-byte scratch buffer", (p as i128) - (lo as i128), n, scratch_len),
+                    cj(),
+                ));
+            }
+        }
+        Ok(())
+    });
+    clear_pending();
+    r?;
+    l.class("reader-reused-after-error");
+    l.nontrivial(&(shape, stream, scratch_len, 9u8));
+    Ok(())
+}
+
 /// adversarial length prefixes planted in a valid encoding
 fn check_adversarial(shape: &Shape, value: &Value, l: &mut Local) -> CaseResult {
     let e = ref_encode(shape, value).unwrap();
@@ -194,7 +257,9 @@ pub fn check_alloc_reader(ri: usize, input: &[u8], scratch_len: usize, l: &mut L
     let cj = || json!({"real_reader": r.name, "input": hex(input), "scratch": scratch_len});
     let mut scratch = vec![0u8; scratch_len];
     l.eval();
-    let (res, m) = measure(|| no_panic(|| (r.run)(input, &mut scratch)));
+    set_pending(&cj().to_string());
+    let (res, m) = crate::alloc::measure_limited(ALLOC_CEILING, || no_panic(|| (r.run)(input, &mut scratch)));
+    clear_pending();
     let accepted = res.map_err(|p| fail("alloc", format!("decoding {} panicked: {}", r.name, p), cj()))?;
     let bound = ALLOC_FACTOR * r.elem.max(1) * (input.len() + scratch_len + 8);
     if m.bytes > bound {
@@ -234,17 +299,25 @@ fn reals() -> Vec<Real> {
         Real { name: "&[u8]", elem: 1, run: |b| d::<&[u8]>(b) },
         Real { name: "(Vec<u64>, String)", elem: 8, run: |b| d::<(Vec<u64>, String)>(b) },
         Real { name: "Option<Vec<char>>", elem: 4, run: |b| d::<Option<Vec<char>>>(b) },
+        Real { name: "Vec<Option<u8>>", elem: 2, run: |b| d::<Vec<Option<u8>>>(b) },
+        Real { name: "Vec<(Option<u8>,Option<u16>)>", elem: 6, run: |b| d::<Vec<(Option<u8>, Option<u16>)>>(b) },
+        Real { name: "Vec<Option<String>>", elem: 24, run: |b| d::<Vec<Option<String>>>(b) },
+        Real { name: "Vec<Option<Option<u32>>>", elem: 12, run: |b| d::<Vec<Option<Option<u32>>>>(b) },
     ]
 }
 
 pub const ALLOC_FACTOR: usize = 64;
+/// a decode that asks for more than this in total is cut off (allocation refused -> abort -> reported with the pending case)
+pub const ALLOC_CEILING: usize = 1 << 30;
 
 pub fn check_alloc(ri: usize, input: &[u8], l: &mut Local) -> CaseResult {
     let rs = reals();
     let r = &rs[ri % rs.len()];
     let cj = || json!({"real": r.name, "input": hex(input)});
     l.eval();
-    let (res, m) = measure(|| no_panic(|| (r.run)(input)));
+    set_pending(&cj().to_string());
+    let (res, m) = crate::alloc::measure_limited(ALLOC_CEILING, || no_panic(|| (r.run)(input)));
+    clear_pending();
     let accepted = res.map_err(|p| fail("alloc", format!("decoding {} panicked: {}", r.name, p), cj()))?;
     let bound = ALLOC_FACTOR * r.elem.max(1) * (input.len() + 8);
     if m.bytes > bound {
@@ -366,6 +439,9 @@ pub fn replay(case: &Json, l: &mut Local) -> CaseResult {
         let ri = real_readers().iter().position(|r| r.name == name).unwrap_or(0);
         return check_alloc_reader(ri, &input_of(case), case["scratch"].as_u64().unwrap_or(0) as usize, l);
     }
+    if case.get("reader_reuse").is_some() {
+        return check_reader_reuse(&shape_of(case), &input_of(case), case["scratch"].as_u64().unwrap_or(0) as usize, case["flush_start"].as_bool().unwrap_or(true), l);
+    }
     if let Some(w) = case.get("wont").and_then(|w| w.as_u64()) {
         return check_wont(&input_of(case), w as usize, l);
     }
@@ -461,6 +537,30 @@ pub fn run(ctx: &Ctx) {
             check_total(&shapes[2], &q, true, l)
         });
     }
+    // reader deserializers used again after a failed request
+    ctx.par_proptest(
+        "reader-reuse-after-error",
+        n,
+        || {
+            (
+                gen::arb_typed(scfg.clone(), ValCfg { max_len: 40, max_seq: 3 }),
+                proptest::collection::vec(prop_oneof![3 => 0u8..5, 1 => any::<u8>()], 0..12),
+                any::<u16>(),
+                any::<bool>(),
+                0usize..3,
+            )
+        },
+        |((s, v), extra, sl, fs, copies), l| {
+            let e = ref_encode(s, v).unwrap();
+            let mut stream = vec![];
+            for _ in 0..=*copies {
+                stream.extend_from_slice(&e.bytes);
+            }
+            stream.extend_from_slice(extra);
+            let scratch_len = gen::pick_idx(*sl, e.bytes.len() + 2);
+            check_reader_reuse(s, &stream, scratch_len, *fs, l)
+        },
+    );
     // long inputs (up to 4 kB)
     ctx.par_proptest(
         "long-inputs",
